@@ -123,6 +123,12 @@ def pre_removal(ctx, rule='A14p'):
             for n_dec, L in ((2, 3), (3, 3), (2, 5), (3, 6)):
                 for i_dec in range(n_dec):
                     env = {'i_dec': i_dec, 'n_dec': n_dec, 'len(choice_constraint.options[i_dec])': L}
+                    # the number of options of choice i_dec, whatever the option table is called locally
+                    for v_ in assigns.values():
+                        for c_ in ast.walk(v_):
+                            if isinstance(c_, ast.Call) and norm(c_.func) == 'len' and len(c_.args) == 1 and \
+                                    isinstance(c_.args[0], ast.Subscript) and norm(c_.args[0].slice) == 'i_dec':
+                                env[norm(c_)] = L
                     for nm in ('i_start', 'n_dec_after', 'i_end'):
                         if nm in assigns:
                             env[nm] = intcmp._const(assigns[nm], env)
@@ -141,7 +147,15 @@ def pre_removal(ctx, rule='A14p'):
     ctx.ob(rule, fkey(fn, rule, 'norepl-window'), ok, fn.where,
            'for all-permanent UNORDERED_NOREPL choice number i keeps exactly the options [i, n_opts - (n_choices - '
            '1 - i)) - the only indices that can occur in a strictly increasing tuple', detail)
-    ok = 'all((node in permanent_nodes for node in choice_constraint.nodes))' in txt
+    perm_p = next((q for q in fn.params if 'permanent' in q), 'permanent_nodes')
+    ok = 'all((node in permanent_nodes for node in choice_constraint.nodes))' in txt or any(
+        isinstance(c_, ast.Call) and norm(c_.func) == 'all' and len(c_.args) == 1 and
+        isinstance(c_.args[0], (ast.GeneratorExp, ast.ListComp)) and len(c_.args[0].generators) == 1 and
+        isinstance(c_.args[0].elt, ast.Compare) and len(c_.args[0].elt.ops) == 1 and
+        isinstance(c_.args[0].elt.ops[0], ast.In) and norm(c_.args[0].elt.comparators[0]) == perm_p and
+        norm(c_.args[0].elt.left) == norm(c_.args[0].generators[0].target) and
+        norm(expand_locals(u_, c_.args[0].generators[0].iter, 2)).endswith('.nodes')
+        for u_ in unit for c_ in walk_fn(u_))
     ctx.ob(rule, fkey(fn, rule, 'norepl-only-if-all-permanent'), ok, fn.where,
            'the window is only applied when every constrained choice is permanent (otherwise some choices may be '
            'inactive and the window would over-prune)', '')
@@ -160,7 +174,7 @@ def pre_removal(ctx, rule='A14p'):
             l_, r_ = t_.ast.left.id, t_.ast.comparators[0].id
             roles = {}
             for nm_ in (l_, r_):
-                d_ = norm(defs_[nm_]) if nm_ in defs_ else ''
+                d_ = norm(expand_locals(u, defs_[nm_], 2)) if nm_ in defs_ else ''
                 if d_.startswith('len(') and d_.endswith('.nodes)'):
                     roles[nm_] = 'choices'
                 elif d_.startswith('max(') and '.options' in d_ and 'len(' in d_:
@@ -179,8 +193,9 @@ def pre_removal(ctx, rule='A14p'):
                 continue        # not the strict "more choices than options" comparison
             lab_over = 'T' if over else 'F'
             alls = [n_ for n_ in ucfg.nodes if n_.kind == 'stmt' and isinstance(n_.ast, ast.Return) and
-                    isinstance(n_.ast.value, ast.ListComp) and '.options[' in norm(n_.ast.value.elt) and
-                    norm(n_.ast.value.generators[0].iter).endswith('.nodes)')]
+                    isinstance(n_.ast.value, ast.ListComp) and
+                    '.options[' in norm(expand_locals(u, n_.ast.value.elt, 2)) and
+                    norm(expand_locals(u, n_.ast.value.generators[0].iter, 2)).endswith('.nodes)')]
             other = {(t_.id, m_.id, lab_) for m_, lab_ in t_.succ if lab_ != lab_over}
             if alls and all(ucfg.can_reach(t_, n_) and
                             not ucfg.can_reach(t_, n_, blocked_edges={(t_.id, m_.id, lab_) for m_, lab_ in t_.succ
